@@ -71,6 +71,20 @@ CHECKS['C13'] = dict(
               "bounded enumeration for three lemmas",
     design='4 C13')
 
+CHECKS['C20'] = dict(
+    category='proof',
+    text="Deductive (all expressions, all states): every override of Expr.subst (Var, ArrayElt, Field, Const, Op, "
+         "Fun, ITE) is proved against one virtual contract - evaluating the substituted expression equals "
+         "evaluating the original in the state updated by the assignment (the lemma that makes the assignment "
+         "rule of compute_wp right). Program-level soundness of compute_wp/get_vcs against execution and the "
+         "print/parse agreement of conditions are covered by a bounded stand-in only (random annotated programs, "
+         "own interpreter) - labelled bounded.",
+    note="Trusted: pyvc, z3; expression semantics of spec/imp.py. Forall expressions excluded. Known finding: "
+         "Op.__str__/cond_parser parenthesisation (recorded, not repaired). HOL side (eval_Sem, vcg) not covered.",
+    technique="contract-based deductive verification with behavioural subtyping (virtual contract on Expr.subst, "
+              "ast->z3, induction), bounded run-time contract on compute_wp",
+    design='4 C20')
+
 NOT_APPLICABLE = {
     'C19': "real-analytic equality of integrals/limits/series with a numeric floating-point oracle; no decidable "
            "function contract (DESIGN 4 C19)",
